@@ -33,6 +33,12 @@ CLAIMED = {
         "checked only as a bounded stand-in (operands |x| <= 12, table arithmetic) and are not counted as proved. The limb arithmetic itself is GMP's and is assumed.",
    note="Trusted: prelude/exactnum.h (GMP contracts: canonicalize and mpq operators return canonical values; integer_class is a mathematical integer), extraction rules, CBMC.",
    tech="contract-based deductive verification with CBMC on mechanically extracted function text (route F: loop-free, full domain, callers checked against assumed GMP contracts); bounded value check (route B) as stand-in for result values"),
+ "C17": dict(cat="model_checking", design="§4 C17",
+   text="BOUNDED, and only ONE clause of the property (numeric literals): the real Parser::parse_numeric text is executed by CBMC on every string of the tokenizer's NUMERIC "
+        "language up to 6 characters (8 thorough): a digit string is the Integer with its base-10 value regardless of leading zeros; a literal with a decimal point or an exponent "
+        "is read as a float. Precedence/associativity, implicit multiplication and function-name mapping (bison LALR tables, std::map of std::function) are NOT covered.",
+   note="Trusted: std::string/strtol (ISO C)/errno/fast_float stubs; the NUMERIC token language transcribed from tokenizer.re; CBMC.",
+   tech="contract-based verification with CBMC on mechanically extracted function text: pre/postcondition harness with libc/std::string stubs; bounded model checking (string length) — bounded stand-in for one clause"),
  "C24": dict(cat="model_checking", design="§4 C24",
    text="BOUNDED stand-in (not a proof): the real text of ~55 routines of dense_matrix.cpp is executed symbolically by CBMC over the field abstraction GF(3) (GF(5) and 4x4 in the "
         "thorough tier) for EVERY matrix of the stated shape (3x3, 3x4, 2x3; LU/LDL also 4x4), against pre/postconditions that are textbook linear algebra written over the field "
@@ -124,7 +130,7 @@ NA = {
  "C46": "Contejean-Devie is a stack-driven search whose termination and completeness are a mathematical theorem over unbounded integer vectors; the body is std::vector<DenseMatrix>/vector<vector<bool>> C++ and no unwinding bound closes the while loop.",
 }
 # claimed-in-design but not yet built: listed as not applicable *for now* with that reason, replaced as they are built
-PENDING = {'C17': 'claimed in DESIGN.md §4 but its check is not built yet in this commit; not claimed until bin/check C17 exists', 'C20': 'claimed in DESIGN.md §4 but its check is not built yet in this commit; not claimed until bin/check C20 exists', 'C24': 'claimed in DESIGN.md §4 but its check is not built yet in this commit; not claimed until bin/check C24 exists'}
+PENDING = {'C20': 'claimed in DESIGN.md §4 but its check is not built yet in this commit; not claimed until bin/check C20 exists', 'C24': 'claimed in DESIGN.md §4 but its check is not built yet in this commit; not claimed until bin/check C24 exists'}
 
 def main():
     ids = [json.loads(l)["id"] for l in open(os.path.join(V, "properties.jsonl"))]
